@@ -261,8 +261,8 @@ func init() {
 						sid = 0xFFFF
 					}
 					d, ok := hsms.Parse([]byte{0, 0, 0, 10, byte(sid >> 8), byte(sid), 0, 0, 0, st, sys[0], sys[1], sys[2], sys[3]})
-					if !ok {
-						panic("decoder refused a well-formed control message")
+					if !ok || d == nil {
+						return nil
 					}
 					return d
 				case "raw:select.req", "raw:deselect.req", "raw:linktest.req":
@@ -295,6 +295,11 @@ func init() {
 					sys := [][]byte{{0, 0, 0, 0}, {0xFF, 0xFF, 0xFF, 0xFF}, {1, 2, 3, 4}, {0x80, 0x7F, 0, 0xFF}, {0xDE, 0xAD, 0xBE, 0xEF}}[d[3]]
 					rk, k := reqKinds[d[0]], rsps[d[1]]
 					req := mkReq(rk, sids[d[2]], sys)
+					if req == nil {
+						c.Fail("ctl-decode-refused", fmt.Sprintf("a %s with session %d system %x", rk, sids[d[2]], sys), "hsms.Parse refused a well-formed control message")
+						c.Case(0, true, "bad")
+						return
+					}
 					reqBytes, reqType := append([]byte{}, req.ToBytes()...), req.Type()
 					answer := func() (m ast.HSMSMessage, p interface{}) {
 						p = catch(func() {
